@@ -477,6 +477,7 @@ ADDED8 = {
     "C13": "the slack-step offset W'(lambda \\ ds) obtained through the cone list equals, block by block, the offsets of fresh single-cone objects that see only their own slices",
     "C14": "a fifth of the generalised power cones with a w block of two or more entries get a primal point whose w block mixes exact zeros with non-zeros",
     "C15": "one case in twelve asks for alpha_max below min_terminate_step_length: the requested maximum itself is always tried, so a zero step is legitimate only if it fails too",
+    "C19": "one settings argument in six carries time_limit = f64::MAX (the value an infinite limit is stored as): an argument is used as given",
 }
 for _k, _v in ADDED8.items():
     PLAN[_k]["rule"] = PLAN[_k]["rule"] + "; " + _v
